@@ -70,8 +70,9 @@ class Scope:
     """Shallow view of one statement list: resolves a local temporary to the expression assigned to it
     (single top-level assignment in the list) so that extracted temporaries read like the inlined expression."""
 
-    def __init__(self, bs, stmts, keep=(), only=None):
+    def __init__(self, bs, stmts, keep=(), only=None, alias=None):
         self.bs, self.stmts, self.keep, self.only = bs, list(stmts), set(keep), only
+        self.alias = dict(alias or {})   # local name -> the local it is a plain copy of
         self.defs = {}
         counts = {}
         for st in self.stmts:
@@ -100,7 +101,9 @@ class Scope:
             return t
         m = {}
         for s_ in walk(t):
-            if s_[0] == "local" and s_[1] in self.defs and s_[1] not in self.keep:
+            if s_[0] == "local" and s_[1] in self.alias:
+                m[s_] = ("local", self.alias[s_[1]])
+            elif s_[0] == "local" and s_[1] in self.defs and s_[1] not in self.keep:
                 d = self.defs[s_[1]]
                 v = self.bs.term(d[1].value if d[0] == "one" else d[2], d[1])
                 m[s_] = self.resolve(v, depth + 1)
@@ -121,7 +124,9 @@ def search_loop(fn, cfg, bs):
     if isinstance(L, ast.While):
         return F, L, bs.term(L.test, L), list(L.body), "while"
     first = L.body[0] if L.body else None
-    if isinstance(first, ast.If) and len(first.body) == 1 and isinstance(first.body[0], ast.Break) and not first.orelse:
+    # leading tolerance test: 'if precise enough: [result = ...; flag = ...;] break'
+    if isinstance(first, ast.If) and first.body and isinstance(first.body[-1], ast.Break) and not first.orelse \
+            and all(isinstance(x, ast.Assign) and all(isinstance(t_, ast.Name) for t_ in x.targets) for x in first.body[:-1]):
         t = bs.term(first.test, first)
         from vstat.terms import neg_test
         return F, L, neg_test(t), list(L.body[1:]), "for"
@@ -232,11 +237,14 @@ def one(prog, rep, cls, comb):
             okt = dlt[0] == "bin" and dlt[1] == "-" and ((dlt[2] == Lc(pename) and is_alpha(dlt[3])) or (dlt[3] == Lc(pename) and is_alpha(dlt[2])))
     rep.check(okt, "C04.exit", f"{q}:test", fn.where(W), "search continues while |pe - alpha| / alpha > allowed_error",
               f"the search must continue exactly while the relative error of the current pe exceeds allowed_error: |pe - alpha|/alpha > allowed_error; found {show(tt)[:160]}")
-    rep.check(not W.orelse and not any(isinstance(n, ast.Return) for n in ast.walk(W)), "C04.exit", f"{q}:no-other-exit", fn.where(W),
+    else_ok = not W.orelse or (form == "for" and all(
+        (isinstance(x, ast.Assign) and all(isinstance(t_, ast.Name) for t_ in x.targets)) or (isinstance(x, ast.Expr) and isinstance(x.value, ast.Call) and _is_warn(bf.term(x.value, x), "UserWarning"))
+        for x in W.orelse))   # for-else: what runs when the iterations are used up (recording that / warning) is not another exit
+    rep.check(else_ok and not any(isinstance(n, ast.Return) for n in ast.walk(W)), "C04.exit", f"{q}:no-other-exit", fn.where(W),
               "no else / return in the search loop", "the search loop must have no other exit than its test and the warned stop at the iteration limit")
     inside = {cfg.node(s_) for s_ in ast.walk(W) if id(s_) in cfg.node_of}
     warn_nodes = [cfg.node(s_) for s_ in ast.walk(W) if isinstance(s_, ast.Expr) and isinstance(s_.value, ast.Call) and _is_warn(bf.term(s_.value, s_), "UserWarning")]
-    lead = W.body[0].body[0] if form == "for" else None
+    lead = W.body[0].body[-1] if form == "for" else None
     breaks = [n for n in ast.walk(W) if isinstance(n, ast.Break) and n is not lead]
     okb, why = True, ""
     for br in breaks:
@@ -277,6 +285,31 @@ def one(prog, rep, cls, comb):
                         if algebra.same(lim_full, last_full):
                             warned_last = True
         if not warned_last:
+            # ... or warned where the loop ends without the tolerance break: in the loop's else clause, or after the loop under a
+            # flag that is set one way at the tolerance break and the other way in the else clause / before the loop
+            if any(isinstance(x, ast.Expr) and isinstance(x.value, ast.Call) and _is_warn(bf.term(x.value, x), "UserWarning") for x in W.orelse):
+                warned_last = True
+            else:
+                def flag_consts(stmts):
+                    return {x.targets[0].id: x.value.value for x in stmts if isinstance(x, ast.Assign) and len(x.targets) == 1 and isinstance(x.targets[0], ast.Name)
+                            and isinstance(x.value, ast.Constant) and isinstance(x.value.value, bool)}
+                at_break = flag_consts(W.body[0].body[:-1])
+                at_end = flag_consts(W.orelse)
+                fb = F.body
+                wi = next((k_ for k_, x in enumerate(fb) if x is W), None)
+                if wi is not None and not at_end:
+                    # initial value before the loop, changed only at the tolerance break
+                    at_end = {n_: v_ for n_, v_ in flag_consts(fb[:wi]).items() if n_ in at_break}
+                for name_, v_break in at_break.items():
+                    if name_ in at_end and at_end[name_] is (not v_break) and wi is not None:
+                        others = [d_ for d_ in rd.all_defs(name_) if d_.stmt is not None and not any(d_.stmt is x for x in list(W.body[0].body) + list(W.orelse) + fb[:wi])]
+                        for x in fb[wi + 1:]:
+                            if isinstance(x, ast.If) and not others:
+                                tt_ = bs.term(x.test, x)
+                                want_ = Lc(name_) if at_end[name_] else ("not", Lc(name_))
+                                if tt_ == want_ and any(isinstance(y, ast.Expr) and isinstance(y.value, ast.Call) and _is_warn(bf.term(y.value, y), "UserWarning") for y in x.body):
+                                    warned_last = True
+        if not warned_last:
             okb, why = False, "the counted search loop can run out of iterations without the 'could not achieve the required precision' UserWarning"
     rep.check(okb, "C04.exit", f"{q}:break", fn.where(breaks[0]) if breaks else fn.where(W), "the iteration limit is left only after warnings.warn(UserWarning)", why)
     # ---- sync
@@ -291,16 +324,34 @@ def one(prog, rep, cls, comb):
     okm = all([d.stmt for d in rd.reaching(vname, u)] == [vec_st] for u in mask_users if any(isinstance(x, ast.Name) and x.id == vname for x in ast.walk(u)))
     rep.check(okm, "C04.sync", f"{q}:mask-uses-current", fn.where(mask_st),
               "the mask reads this iteration's vector", "the mask must be computed from the vector of the same iteration")
+    # a name that is only ever bound to the vector where the loop ends (at the tolerance break / in the else clause) is the vector
+    aliases = {}
+    ends = (list(W.body[0].body) if form == "for" else []) + list(W.orelse)
+    for x in ends:
+        if isinstance(x, ast.Assign) and len(x.targets) == 1 and isinstance(x.targets[0], ast.Name) and isinstance(x.value, ast.Name) and x.value.id == vname:
+            nm_ = x.targets[0].id
+            ds_ = [d for d in rd.all_defs(nm_) if d.kind != "del"]
+            if ds_ and all(isinstance(d.stmt, ast.Assign) and isinstance(d.value, ast.Name) and d.value.id == vname and any(d.stmt is e for e in ends) for d in ds_) \
+                    and all([dd.stmt for dd in rd.reaching(vname, d.stmt)] in ([vec_st], []) or True for d in ds_):
+                aliases[nm_] = vname
     # reads of the vector after the search loop, inside the angle loop
     stores = []
     iW = top_level_index(F.body, W)
     for st in F.body[iW + 1:] if iW is not None else []:
         for n in ast.walk(st):
-            if isinstance(n, ast.Name) and n.id == vname and isinstance(n.ctx, ast.Load):
+            if isinstance(n, ast.Name) and (n.id == vname or n.id in aliases) and isinstance(n.ctx, ast.Load):
                 holder = _stmt_containing(F.body, n)
                 if holder is not None and holder not in [h for h, _ in stores]:
                     stores.append((holder, n))
-    ok = bool(stores) and all([d.stmt for d in rd.reaching(vname, _inner_stmt(cfg, h, n_))] == [vec_st] for h, n_ in stores)
+
+    def from_last_iteration(h, n_):
+        at = _inner_stmt(cfg, h, n_)
+        if n_.id == vname:
+            return [d.stmt for d in rd.reaching(vname, at)] == [vec_st]
+        # through the alias: every binding of the alias that reaches here copies the vector of the last iteration
+        return all([d2.stmt for d2 in rd.reaching(vname, d.stmt)] == [vec_st] for d in rd.reaching(n_.id, at)) and bool(rd.reaching(n_.id, at))
+
+    ok = bool(stores) and all(from_last_iteration(h, n_) for h, n_ in stores)
     rep.check(ok, "C04.sync", f"{q}:stored-point", fn.where(stores[0][0]) if stores else fn.where(F),
               "the stored coordinates are components of the vector pe was last computed from",
               "the coordinates stored after the search must be components of the vector defined in the last iteration (before pe), nothing else")
@@ -310,7 +361,7 @@ def one(prog, rep, cls, comb):
               "the loop test must read the pe computed in the last iteration")
     rep.check(iv is not None and body[iv] is vec_st, "C04.sync", f"{q}:vector-top-level", fn.where(vec_st), "vector assignment is unconditional in the iteration", "the vector must be assigned unconditionally in every iteration")
     # ---- ray
-    scF = Scope(bs, F.body, keep={vname})
+    scF = Scope(bs, F.body, keep={vname}, alias=aliases)
     vt = bs.term(vec_st.value, vec_st)
     usrc = None
     if vt[0] == "bin" and vt[1] == "*":
